@@ -9,6 +9,8 @@ def explore(run, lean):
                          "queued, active object under the deterministic scheduler) x decorator (spied / un-spied) x live spy / live "
                          "trace flags; the action log and final state of each configuration are compared with the plain processor's; "
                          "plus the decorator-detection probe (known finding)")
+    ROUND6_RULE = '; live flags switched on after start_at or after k events'
+    run.extra["rule"] += ROUND6_RULE
 
 
 def replay(case):
